@@ -735,7 +735,8 @@ void run_history(const J &hist) {
     FILE *hf = fopen(hosts.c_str(), "w");
     if (hf) {
       fputs("10.1.2.3 h1.test\n10.1.2.4 h1.test\nfd00::7 h1.test\n10.1.2.5 h2.test alias2.test\n"
-            "2001:db8:1111:2222:3333:4444:5555:7 long6.test\n2001::6 short6.test\n", hf);
+            "2001:db8:1111:2222:3333:4444:5555:7 long6.test\n2001::6 short6.test\n"
+            "10.1.2.6 v4only.localhost\nfd00::8 v6only.localhost\n", hf);
       fclose(hf);
     }
   }
